@@ -4,7 +4,7 @@ From TS Require Import Model.Str Model.Outcome Model.Unicode Model.Types Model.P
                        Model.Lang.TypeScript Model.Lang.Kotlin Model.Lang.Scala Model.Lang.Go Spec.C09Spec.
 From TS Require Import Model.Lang.Swift Model.Lang.Python.
 From TS Require Proofs.C09Common Proofs.C09Recon Proofs.C09Refs Proofs.C09_KotlinFile Proofs.C09Witness Proofs.C09Final.
-From TS Require Proofs.C09_TypeScript Proofs.C09_Scala Proofs.C09_Python.
+From TS Require Proofs.C09_TypeScript Proofs.C09_Scala Proofs.C09_Python Proofs.C09_Swift.
 Import ListNotations.
 
 (* the program the back ends receive in single-file mode is Proofs.C09Recon.c09_reconciled of the parsed one *)
@@ -130,6 +130,28 @@ Theorem C09_no_rename_Python :
       good_C09 Python [] pd (c09_observe Python fd) = true.
 Proof. exact Proofs.C09Final.c09_no_rename_python. Qed.
 Print Assumptions C09_no_rename_Python.
+
+(* Swift, every program, every prefix, type-mapping, decorator and generic-constraint configuration: outside the
+   recorded classes every name spelled in a type position (stored-property types, case payloads, typealias
+   targets, the ...Inner helper struct of a struct variant and its type arguments, generic arguments) is a
+   generic parameter of the item it stands in (verbatim, unprefixed) or exactly the name a generated
+   definition is declared under (after serde(rename), after the prefix) *)
+Theorem C09_Swift :
+  forall (uc : unicode) (cfg : sw_config) (acrs : list str) (pd : parsed),
+    dom_C09 Swift (sw_prefix cfg) pd = true -> known_C09 Swift (sw_prefix cfg) acrs pd = None ->
+    forall fd : file_decls, sw_file_decls uc cfg (Proofs.C09Recon.c09_reconciled pd) = Ok fd ->
+      good_C09 Swift (sw_prefix cfg) pd (c09_observe Swift fd) = true.
+Proof. exact Proofs.C09_Swift.c09_swift_all. Qed.
+Print Assumptions C09_Swift.
+
+Theorem C09_no_rename_Swift :
+  forall (uc : unicode) (cfg : sw_config) (pd : parsed),
+    dom_C09 Swift (sw_prefix cfg) pd = true ->
+    (forall e, In e (c09_entities pd) -> c09_renamed_away (c9e_id e) = false) ->
+    forall fd : file_decls, sw_file_decls uc cfg (Proofs.C09Recon.c09_reconciled pd) = Ok fd ->
+      good_C09 Swift (sw_prefix cfg) pd (c09_observe Swift fd) = true.
+Proof. exact Proofs.C09Final.c09_no_rename_swift. Qed.
+Print Assumptions C09_no_rename_Swift.
 
 (* nothing renamed => no recorded class applies, all languages (with an empty Go acronym list) *)
 Theorem C09_no_rename_no_class :
